@@ -3,6 +3,7 @@ package props
 import (
 	"bytes"
 	"fmt"
+	"io"
 	"os"
 	"path/filepath"
 	"runtime"
@@ -24,7 +25,40 @@ var c20Kinds = []string{
 	"write-srt", "write-ssa", "write-stl", "write-ttml", "write-webvtt",
 	"transform",
 	"file", // Subtitles.Write to a file of its own (several goroutines write into the same directory) and OpenFile
+	"read-teletext-early", // a long stream without teletext, from a reader that cannot seek: the call returns early
 }
+
+// c20Phase names the sub-directory that does not exist yet when a phase (alone / together) begins
+var c20Phase string
+
+// c20LateReads counts reads issued on an operation's reader after the call it was given to had returned: a call owns
+// its reader only while it runs
+var c20LateReads int64
+
+type c20OwnedReader struct {
+	r        io.Reader
+	returned *int32
+}
+
+func (o c20OwnedReader) Read(p []byte) (int, error) {
+	if atomic.LoadInt32(o.returned) != 0 {
+		atomic.AddInt64(&c20LateReads, 1)
+	}
+	return o.r.Read(p)
+}
+
+// c20NoTeletext: PAT and a PMT without any teletext stream, then about 400 kB of other packets
+var c20NoTeletext = func() []byte {
+	w := newTSWriter()
+	w.payloadUnit(0, patSection([][2]uint16{{1, 0x30}}), true)
+	w.payloadUnit(0x30, pmtSection(1, 0x1ff0, []pmtStream{{0x1b, 0x1ff0, nil}}), true)
+	w.payloadUnit(0, patSection([][2]uint16{{1, 0x30}}), true)
+	w.payloadUnit(0x30, pmtSection(1, 0x1ff0, []pmtStream{{0x1b, 0x1ff0, nil}}), true)
+	for i := 0; i < 2200; i++ {
+		w.null()
+	}
+	return w.buf.Bytes()
+}()
 
 // c20Dir is the directory of the current round's "file" operations
 var c20Dir string
@@ -35,7 +69,7 @@ func c20Op(kind string, seed uint64) string {
 	var out string
 	p := guard(func() {
 		switch {
-		case len(kind) > 5 && kind[:5] == "read-":
+		case len(kind) > 5 && kind[:5] == "read-" && kind != "read-teletext-early":
 			d := genDoc(r, kind[5:], r.P(1, 4))
 			if d.Format == "stl" && r.P(1, 4) && len(d.Data) >= 1024 {
 				copy(d.Data[3:11], fw.Pick(r, []string{"STL24.01", "STL50.01", "STL60.01"})) // an unknown disk format code
@@ -51,13 +85,22 @@ func c20Op(kind string, seed uint64) string {
 				return
 			}
 			out = sha([]byte(deepDump(s)))
+		case kind == "read-teletext-early":
+			var returned int32
+			_, err := astisub.ReadFromTeletext(c20OwnedReader{bytes.NewReader(c20NoTeletext), &returned}, astisub.TeletextOptions{})
+			atomic.StoreInt32(&returned, 1)
+			out = fmt.Sprint(err)
 		case kind == "file":
 			// every operation has a file name of its own; directory and extension are shared with the others
 			s := richSubtitles(r)
 			ext := fw.Pick(r, []string{"srt", "vtt", "ttml", "ssa", "stl"})
 			path := filepath.Join(c20Dir, fmt.Sprintf("list-%d.%s", seed, ext))
+			if seed%2 == 1 {
+				// a directory that does not exist (yet): whatever Write makes of that, it makes it alone or together
+				path = filepath.Join(c20Dir, "sub-"+c20Phase, fmt.Sprintf("list-%d.%s", seed, ext))
+			}
 			if err := s.Write(path); err != nil {
-				out = "write err:" + strings.ReplaceAll(err.Error(), c20Dir, "")
+				out = "write err:" + strings.ReplaceAll(strings.ReplaceAll(err.Error(), c20Dir, ""), "sub-"+c20Phase, "sub")
 				return
 			}
 			b, err := os.ReadFile(path)
@@ -136,6 +179,7 @@ type c20Span struct {
 }
 
 var c20Digest string
+var c20Goroutines int
 
 func c20Run(c *fw.Ctx) fw.Outcome {
 	r := c.R
@@ -160,6 +204,7 @@ func c20Run(c *fw.Ctx) fw.Outcome {
 		}
 	}
 	// the sequential run, alone, beforehand
+	c20Phase = fmt.Sprintf("alone-%d", c.Idx)
 	for i := range jobs {
 		jobs[i].seq = c20Op(jobs[i].kind, jobs[i].seed)
 	}
@@ -185,9 +230,17 @@ func c20Run(c *fw.Ctx) fw.Outcome {
 			spans[i].end = atomic.AddInt64(&tick, 1)
 		}()
 	}
+	c20Phase = fmt.Sprintf("together-%d", c.Idx)
 	ready.Wait()
 	close(start)
 	done.Wait()
+	// a moment for anything a call may have left running to show itself (observing nothing proves nothing; a read
+	// observed after the call returned is a fact)
+	runtime.Gosched()
+	time.Sleep(2 * time.Millisecond)
+	if n := atomic.LoadInt64(&c20LateReads); n > 0 {
+		return fw.Bad(key, nil, "%d reads were issued on a reader after the call it had been given to had returned: the call left something running that still uses its input", n)
+	}
 	for i := range jobs {
 		if results[i] != jobs[i].seq {
 			return fw.Bad(key, nil, "operation %s (seed %d) returned %s when run concurrently with %d others (GOMAXPROCS %d) and %s when run alone", jobs[i].kind, jobs[i].seed, trunc(results[i], 300), g-1, procs, trunc(jobs[i].seq, 300))
@@ -232,6 +285,7 @@ func init() {
 		Setup: func(c *fw.Ctx) error {
 			c20Digest = stateDigest()
 			datasegMark()
+			c20Goroutines = runtime.NumGoroutine()
 			return nil
 		},
 		Final: func(c *fw.Ctx) []fw.Outcome {
@@ -245,6 +299,22 @@ func init() {
 				outs = append(outs, fw.OK(fw.HashString(d), "state digest unchanged: "+d))
 			}
 			outs = append(outs, datasegVerdict("during the concurrent rounds"))
+			// goroutines: the library starts none of its own, so the count is back where it was once the rounds are over
+			time.Sleep(50 * time.Millisecond)
+			if g := runtime.NumGoroutine(); g > c20Goroutines {
+				buf := make([]byte, 1<<16)
+				buf = buf[:runtime.Stack(buf, true)]
+				where := ""
+				for _, blk := range strings.Split(string(buf), "\n\n") {
+					if strings.Contains(blk, "go-astisub") {
+						where = trunc(strings.ReplaceAll(blk, "\n", " | "), 600)
+						break
+					}
+				}
+				outs = append(outs, fw.Bad(4, nil, "%d goroutines at the start of the worker, %d after its rounds: calls leave goroutines behind, e.g. %s", c20Goroutines, g, where))
+			} else {
+				outs = append(outs, fw.OK(0x60c0, fmt.Sprintf("goroutines: %d before, %d after", c20Goroutines, g)))
+			}
 			return outs
 		},
 		MinDistinct: func(tier string) int64 { return tierN(tier, 100, 2000) },
